@@ -17,7 +17,7 @@ CLAIMED = {
               "exhaustive histories up to length 3 plus random ones up to length 40 and by all 2^14 Option values."),
         note=BASE_NOTE + "Modelled, not verified: Go map, os.Environ (cleared by the harness), os.Getpid (oracle value).",
         technique="Coq refinement proof (store model -> abstract map) + differential correspondence model vs interp.ExecEnv",
-        design="6 C20"),
+        design="5 C20"),
     "C12": dict(
         text=("Proved for every pattern item list and every subject (induction on the items; key lemmas: monotonicity of the extreme "
               "remainder in the start position, extreme-start specifications of the greedy/lazy star, the leftmost search and Match's "
@@ -30,7 +30,7 @@ CLAIMED = {
         note=BASE_NOTE + "Modelled, not verified: Go regexp (syntax of the emitted subset and leftmost-first semantics), utf8 decoding. "
              "Outside the modelled subset (skipped): [.x.] / [=x=] inside brackets, brackets that Go closes elsewhere than compile.",
         technique="Coq proof that priority backtracking yields the extreme affix + differential correspondence (regex text and Match results)",
-        design="6 C12"),
+        design="5 C12"),
     "C11": dict(
         text=("Model: tokenizer, parser for arith.go.y's productions, the rule-action evaluator (values computed bottom-up, all operands of && || ?: "
               "evaluated, lazy variable lookup, nothing evaluated after the first fault), strconv.ParseInt/Itoa and Go int arithmetic; spec: C "
@@ -42,7 +42,7 @@ CLAIMED = {
         note=BASE_NOTE + "Modelled, not verified: strconv.ParseInt/Itoa, unicode.IsLetter/IsDigit (table on a declared universe, checked against Go "
              "on every run), goyacc's LALR tables (the model parses the same productions by precedence climbing; agreement is by correspondence).",
         technique="Coq frame theorem on the rule-action evaluator + differential correspondence + C-semantics oracle extracted from Coq",
-        design="6 C11"),
+        design="5 C11"),
     "C13": dict(
         text=("Proved (every environment, name other than @/*, word, mode, field context): the operator switch of expandParam performs exactly "
               "the action of the POSIX table for :- - := = :? ? :+ + in each parameter state, assignment to special/positional parameters is "
@@ -51,7 +51,7 @@ CLAIMED = {
               "x quoting x operator words x nounset x IFS. Known finding F18 (\"$@\" with no parameters) is reported as KNOWN-FINDING."),
         note=BASE_NOTE + "Modelled, not verified: os/user lookup (oracle table probed by the harness), pattern.Match through the C12 model.",
         technique="Coq case-analysis proof of the POSIX table on the expandParam model + differential correspondence + table oracle",
-        design="6 C13"),
+        design="5 C13"),
     "C14": dict(
         text=("Model of split/Expand's default mode and an independent specification (cut at every unquoted IFS character, keep pieces with a "
               "character or a quoted part). Proved: a field of quoted segments is never cut; an empty IFS disables splitting. The full statement "
@@ -60,7 +60,7 @@ CLAIMED = {
               "settings plus random longer words, and by model correspondence."),
         note=BASE_NOTE + "Modelled, not verified: unicode.IsSpace (White_Space list), utf8 decoding. Pathname expansion disabled as the property says.",
         technique="Coq lemmas on the splitter model + differential correspondence + splitting specification extracted from Coq as oracle",
-        design="6 C14"),
+        design="5 C14"),
     "C16": dict(
         text=("Model of Glob (component loop, literal fast path, directory scan with the hidden-name rule, separator search) over an abstract "
               "file-system tree, and an independent component-wise specification built on C12's denotation. Proved: the sorting step returns an "
@@ -71,7 +71,7 @@ CLAIMED = {
         note=BASE_NOTE + "Modelled, not verified: the OS file system (os.Lstat/Stat/Open/Readdirnames as path resolution on a tree; no symlinks "
              "other than dangling ones, no permissions, no concurrent modification).",
         technique="Coq lemmas on the Glob model + differential correspondence on materialised trees + specification extracted from Coq as oracle",
-        design="6 C16"),
+        design="5 C16"),
     "C01": dict(
         text=("Proved: (1) the bail-out of both lexer goroutines never crashes the process under either panicnil setting -- what they panic with and "
               "what run() filters is translated from the source on every run, so re-introducing panic(nil) breaks the theorem; (2) progress of the "
@@ -82,7 +82,7 @@ CLAIMED = {
               "panicnil=0 and 1, five source kinds, 14 alias tables, with a per-call watchdog."),
         note=BASE_NOTE + "Modelled, not verified: Go runtime (recover, select, goroutines), bufio/strings readers. Termination is observed with a 3 s watchdog.",
         technique="Coq theorems on the bail-out sentinel (translated), the protocol LTS (progress) and the alias stack + exhaustive crash/hang search in isolated workers",
-        design="6 C01"),
+        design="5 C01"),
     "C04": dict(
         text=("Proved: the line/column bookkeeping of read() makes the cursor the character position of the consumed prefix (columns count characters), "
               "unread() undoes exactly one read(). NOT proved: the offsets at the ~40 mark() sites and the derived Pos()/End() methods; decided on every "
@@ -91,7 +91,7 @@ CLAIMED = {
               "F28 (here-document extent vs enclosing End()) is reported as KNOWN-FINDING."),
         note=BASE_NOTE + "Sources without aliases, as the property states; documented exclusions: line continuations, Comment.End.",
         technique="Coq cursor model theorems + intrinsic position checker on the implementation's ASTs",
-        design="6 C04"),
+        design="5 C04"),
     "C06": dict(
         text=("Proved on the protocol model (lexer = deterministic emitting program, parser = deterministic automaton, unbuffered channel, cancel observed "
               "at emit / here-document wait only, order-independent error slot, join before return), for all programs/automata: every two maximal "
@@ -102,7 +102,7 @@ CLAIMED = {
         note=BASE_NOTE + "Not expressible in the model (named): the Go memory model, scheduler fairness, a blocking ReadRune. Interleavings on the real code are "
              "perturbed, not enumerated.",
         technique="Coq confluence proof of the protocol LTS + hook-driven schedule perturbation, runtime invariant monitors, race detector",
-        design="6 C06"),
+        design="5 C06"),
     "C07": dict(
         text=("Proved for every program over the ReadRune/UnreadRune interface (the lexer is one), every source and state: text beyond the inspected "
               "prefix influences neither result, outputs nor final reader position (prefix locality); the reader never stands beyond what was inspected. "
@@ -111,7 +111,7 @@ CLAIMED = {
               "separate parse, blank lines empty) and by re-parsing each command with arbitrary text substituted beyond its inspected prefix."),
         note=BASE_NOTE + "Trusted: that all input of the lexer goes through read()/unread() (grep-checked).",
         technique="Coq prefix-locality theorem for effect programs + stream consumption and prefix-substitution checks on the implementation",
-        design="6 C07"),
+        design="5 C07"),
     "C08": dict(
         text=("Proved: under every schedule of the protocol model redirections are popped in push order (k-th body to k-th operator); for a quoted "
               "delimiter the reader model returns every body whose lines differ from the delimiter byte for byte (empty first line included), recognises "
@@ -121,7 +121,7 @@ CLAIMED = {
               "in source order, at every redirection site)."),
         note=BASE_NOTE + "Backslash-newline inside an expanding body is a line continuation (removed), treated like the documented exclusion of C04.",
         technique="Coq FIFO theorem (protocol LTS) and literal-body reader theorems with correspondence + generator-driven here-document check",
-        design="6 C08"),
+        design="5 C08"),
     "C10": dict(
         text=("Proved: the error slot's merge rule (translated concept: rank 0 read error, 1+position syntax errors, keep the minimum) keeps the read "
               "error whatever is reported before or after it, in any order; the reader interpreter notices every failing read. Tied to the code by "
@@ -129,7 +129,7 @@ CLAIMED = {
               "whether the failing read was reached."),
         note=BASE_NOTE + "io.Reader sources go through bufio (forwards the error); only the RuneScanner kind carries the injector.",
         technique="Coq sticky-error theorem on the slot merge + exhaustive single-fault injection on the implementation",
-        design="6 C10"),
+        design="5 C10"),
     "C15": dict(
         text=("Proved for every rune string, every following text (end of input / blank / operator), every environment and every mode that consults no "
               "pathname oracle: the scanner model returns one word for the single-quoted, double-quoted (with $ ` \" \\ escaped) and backslash-each "
@@ -139,7 +139,7 @@ CLAIMED = {
               "correspondence. NOT proved: default mode with pathname expansion enabled (observed with matching files present)."),
         note=BASE_NOTE + "The scanner model covers the quoting fragment only ($, backquote, # at word start are outside it).",
         technique="Coq round-trip theorems (scanner model + expansion model) + scanner correspondence + adversarial-environment expansion check",
-        design="6 C15"),
+        design="5 C15"),
     "C17": dict(
         text=("Proved: the stack of aliases being expanded holds pairwise distinct alias names, its depth is bounded by the table, a name is never "
               "expanded inside its own expansion (termination for every table incl. cycles). NOT proved: equality with textual replacement; decided on "
@@ -148,7 +148,7 @@ CLAIMED = {
               "as assignment words are never replaced."),
         note=BASE_NOTE + "The reference replacement is the generator's own implementation of the rule in the property text (validated against bash and dash while building).",
         technique="Coq alias-stack theorems + folded/unfolded differential check on the implementation",
-        design="6 C17"),
+        design="5 C17"),
     "C18": dict(
         text=("Proved: a writer failing before the whole output is accepted is reported by the buffered writer for every write sequence and buffering "
               "schedule; the temporarily hidden separators are all restored by the deferred undos in any nesting, also when a node is trimmed twice. "
@@ -156,7 +156,7 @@ CLAIMED = {
               "unchanged, writers failing after every k, over generated programs x 16 pairwise-covering Configs (every 16th program: all 256)."),
         note=BASE_NOTE + "bufio is abstracted to an arbitrary flush schedule.",
         technique="Coq theorems on the buffered-writer and trim/undo models + print/parse/print fix-point check under all styles",
-        design="6 C18"),
+        design="5 C18"),
     "C02": dict(
         text=("Token level. The grammar of parser.go.y is written as a derivation relation over token lists (Parse/GrammarSpec.v); the model of the "
               "generated parser with its rule actions is a fuelled predictive parser that builds the position-free skeleton of the AST. Proved, for all "
@@ -169,7 +169,7 @@ CLAIMED = {
               "it is decided by a derivation generator that renders token lists with random layout and compares delivered tokens and skeleton."),
         note=BASE_NOTE + "Modelled, not verified: goyacc's LALR tables and driver (the model is an LL-style parser for the same productions), the lexer.",
         technique="Coq soundness+completeness proof of the grammar model against a derivation relation + token-tap correspondence + derivation generator",
-        design="6 C02"),
+        design="5 C02"),
     "C03": dict(
         text=("Token level (same model as C02). Proved for all token lists: whatever is accepted is a sentence with every token accounted for in the tree "
               "(none dropped or re-associated), and a reported syntax error implies that no derivation exists. On every run: (a) the model judges the "
@@ -180,7 +180,7 @@ CLAIMED = {
               "proved: lexer-side errors (unterminated quotes, expansions, here-documents) are only observed."),
         note=BASE_NOTE + "Modelled, not verified: goyacc tables and error recovery, the lexer. bash/dash were reference recognisers while building only.",
         technique="Coq proof (accepted <=> derivable, rejected => not derivable) on the grammar model + token-tap correspondence + located-error check",
-        design="6 C03"),
+        design="5 C03"),
     "C09": dict(
         text=("Character level. Model of what the scanner makes of the text between two tokens (blank/newline/comment cases of scanRawToken, the line "
               "continuation, linebreak()). Proved for every layout of the stated shape and every following text: blanks, tabs and backslash-newline only "
@@ -194,7 +194,7 @@ CLAIMED = {
               "separator and blank/comment/continuation streams) and must parse to the same skeleton with exactly its own comments. Known finding F45."),
         note=BASE_NOTE + "Modelled, not verified: the rest of scanRawToken (word and operator scanning).",
         technique="Coq proof on a layout-scanner model + exhaustive correspondence over the layout alphabet + metamorphic layout pairs",
-        design="6 C09"),
+        design="5 C09"),
     "C19": dict(
         text=("Proved: Option.String is total on every bit combination (loop bound translated from the source on every run). NOT proved: totality of "
               "printer / Pos / End / Expand on parser-produced ASTs and of Eval / Match / Glob on arbitrary strings; decided on every run in isolated "
@@ -203,7 +203,7 @@ CLAIMED = {
               "<=2 symbols over a 31-symbol alphabet plus random longer ones; all 2^14 Option values."),
         note=BASE_NOTE + "Absence of panics is observed, not proved, for the entry points other than Option.String.",
         technique="Coq totality theorem for Option.String + downstream no-panic search in isolated workers",
-        design="6 C19"),
+        design="5 C19"),
 }
 
 EXPLORATION = {
@@ -213,7 +213,7 @@ EXPLORATION = {
               "the printed text is accepted and has the same skeleton (';' ~ newline, adjacent literals merged)."),
         note="Implementation-side metamorphic test; no model.",
         technique="exploration: print -> parse round trip under all styles (no proof yet)",
-        design="6 C05"),
+        design="5 C05"),
 }
 
 def hook_commits():
